@@ -213,4 +213,22 @@ Theorem C10_file_counters_independent_both_phases_equal_reflow_sets :
   map ev_erase (filter WrapEventsProofs.is_D (snd (fst (olf_model rsB WB true lines l)))).
 Proof. exact olf_model_two_phase_indep. Qed.
 
+(* END TO END, the property itself: two configurations that differ only in use_tabs; replacing the leading tabs of every line of the
+   use_tabs=true output by tab_width spaces gives exactly the use_tabs=false output - under a DECIDABLE hypothesis: ci*tw <= 255 (F13
+   beyond), no multi-line literal to re-indent (or the option off), wrap_column at least unconstrained_bound for both unit widths, and
+   no token text or verbatim whitespace that itself starts a line with a tab (without which the clause is false: `{<LF><TAB>x}`).
+   The eleven stages in front of the wrapper do not read the settings at all. *)
+From PasfmtVerif Require Import Model.Format Proofs.FormatProofs Proofs.FormatTotalProofs Proofs.FormatTabsProofs Proofs.FormatWsProofs Proofs.FormatCrlfProofs Proofs.FormatRelayoutProofs Proofs.FormatFragmentProofs.
+Theorem C10_format_tabs_vs_spaces :
+  forall (alnum : bytes -> bool) (cfg : fconfig) (s outT : bytes),
+  format_model alnum (with_tabs cfg true) s = inl outT ->
+  (forall segs : list seg, lex_segments s = Some segs -> tabs_hyp alnum cfg segs) ->
+  format_model alnum (with_tabs cfg false) s = inl (expand_leading (c_tab_width cfg) outT).
+Proof. exact format_tabs_vs_spaces. Qed.
+
+Theorem C10_stages_before_the_wrapper_do_not_read_the_settings :
+  forall (alnum : bytes -> bool) (cfgA cfgB : fconfig) (ks : list kstage) (st : fstate),
+  incl ks pre_wrap_kinds -> run_kinds alnum cfgA ks st = run_kinds alnum cfgB ks st.
+Proof. exact format_settings_not_read. Qed.
+
 
